@@ -162,7 +162,8 @@ def _maybe_filter(array, order, func, prefilter, dtype):
     if prefilter and order > 1:
         return spline_filter(array, order, dtype=dtype)
     else:
-        return array.astype(dtype, copy=False)
+        # _interpolate.zoom_shift needs a well-behaved C-array
+        return np.require(array, dtype=dtype, requirements=['C_CONTIGUOUS', 'ALIGNED', 'WRITEABLE'])
 
 def zoom(array, zoom, out=None, order=3, mode='constant', cval=0.0, prefilter=True, output=None):
     """
